@@ -245,7 +245,8 @@ def gen_push(draw, tier="quick"):
         case["moments"] = "na"
         case["bmode"], case["lo"], case["hi"] = "na", None, None
     else:
-        case["moments"] = draw(st.sampled_from(["explicit", "explicit", "sample"]))
+        # each moment is documented on its own: given, or calculated from the data when left out
+        case["moments"] = draw(st.sampled_from(["explicit", "explicit", "sample", "mean_only", "var_only"]))
         case["bmode"], case["lo"], case["hi"] = draw(_bounds(kind, mean, var))
     case["nq"] = draw(st.integers(4, 40))
     case["zx"] = draw(_zx())
@@ -266,6 +267,10 @@ def check_push(case, rec):
     kw = {}
     if case["moments"] == "explicit":
         kw.update(mean=case["mean"], var=case["var"])
+    elif case["moments"] == "mean_only":
+        kw.update(mean=case["mean"])
+    elif case["moments"] == "var_only":
+        kw.update(var=case["var"])
     kw.update(_bound_kw(kind, case["lo"], case["hi"]))
     out = lib(getattr(tf, PUSH_FN[kind]), x.copy(), _tags=tags, **kw)
     out = np.asarray(out)
@@ -285,8 +290,16 @@ def check_push(case, rec):
             cond = 0.0
         else:
             m, v = sample_moments(xf)
+            if v == 0:
+                rec.exclude("constant_sample")
+                return
             # np.mean / np.var carry rounding ~ eps * max|x|, seen relative to sd
             cond = float(np.max(np.abs(xf))) / float(mpmath.sqrt(v))
+            if case["moments"] == "mean_only":
+                m = mpf(case["mean"])
+            elif case["moments"] == "var_only":
+                v = mpf(case["var"])
+                cond = float(np.max(np.abs(xf))) / float(mpmath.sqrt(v))
         s = mpmath.sqrt(v)
         if kind == "uniform":
             lo = mpf(0.0 if case["lo"] is None else case["lo"])
